@@ -598,6 +598,12 @@ func c09CorpusCases() []c09Corpus {
 		{"fixed5.mem_lapsed_record_update", cat([]c09Op{cCon(1, 1, 900, 1), cAdv(3600), cUpd(1, 900, 120)}, obsAll(1), []c09Op{cGC()}, obsAll(1))},
 		{"fixed5.ds_gc_lookahead_cached_clean", cat([]c09Op{cAdd(1, 120, 1), cAdv(180), cRec(1), cGC(), cPeers()}, obsAll(1))},
 		{"fixed5.ds_gc_lookahead_cached_partial", cat([]c09Op{cAdd(1, 9223372036854775807 / 1000000000 * 0 + (1 << 40) + 1, 4), cAdd(1, 120, 2, 3), cAdv(899), cUpd(1, 1 << 40, (1<<40)+1), cGC(), cPeers()}, obsAll(1))},
+		// found by the refinement proof, repaired by /repo 78d0362: a batch naming a NEW address twice
+		// (plainly, or once with /p2p/<self>) was stored and returned twice by pstoreds
+		{"fixed6.dup_batch.add_plain_and_p2p_self", cat([]c09Op{{code: 1, p: 1, ttl: 120, addrs: [][2]int64{{1, 0}, {1, 1}}}, cAddrs(1), cGC()}, obsAll(1))},
+		{"fixed6.dup_batch.add_plain_twice_among_others", cat([]c09Op{cAdd(1, 3600, 2), {code: 1, p: 1, ttl: 900, addrs: [][2]int64{{1, 0}, {2, 0}, {3, 1}, {1, 0}, {3, 0}}}, cAddrs(1), cGC()}, obsAll(1), []c09Op{cAdv(900), cGC()}, obsAll(1))},
+		{"fixed6.dup_batch.set_twice", cat([]c09Op{{code: 2, p: 1, ttl: 120, addrs: [][2]int64{{1, 1}, {1, 0}, {1, 1}}}, cAddrs(1), cGC(), cSet(1, 0, 1, 1), cAddrs(1), cGC()}, obsAll(1))},
+		{"fixed6.dup_batch.consume_twice", cat([]c09Op{cConRaw(1, 1, 900, [2]int64{3, 1}, [2]int64{3, 0}, [2]int64{2, 0}, [2]int64{2, 0}), cAddrs(1), cGC()}, obsAll(1), []c09Op{cConRaw(1, 2, 0, [2]int64{4, 0}, [2]int64{4, 0})}, obsAll(1), []c09Op{cGC()}, obsAll(1))},
 		// exactly-at-expiry, TTL class moves, permanent
 		{"ok.exactly_at_expiry", cat([]c09Op{cAdd(1, 120, 1), cAdd(2, 900, 1, 2), cAdv(119)}, obsAll(1, 2), []c09Op{cAdv(1)}, obsAll(1, 2), []c09Op{cGC()}, obsAll(1, 2), []c09Op{cAdv(779)}, obsAll(2), []c09Op{cAdv(1), cGC()}, obsAll(2))},
 		{"ok.add_never_shortens", cat([]c09Op{cAdd(1, 3600, 1), cAdd(1, 120, 1), cAdv(121)}, obsAll(1), []c09Op{cSet(1, 120, 1), cAdv(120), cGC()}, obsAll(1))},
@@ -656,6 +662,26 @@ func (g *c09Gen) batch(max int, sfxOK bool) [][2]int64 {
 			sfx = 1 + int64(g.r.Intn(2))
 		}
 		l = append(l, [2]int64{perm[i], sfx})
+	}
+	// one batch in five names an address twice: plainly, or once with and once without the
+	// /p2p/<self> suffix (cleanAddrs / SplitAddr map both to the same transport address);
+	// the second occurrence lands at a random position.  (/repo 78d0362: pstoreds stored it twice.)
+	if g.r.Chance(1, 5) {
+		i := g.r.Intn(len(l))
+		dup := [2]int64{l[i][0], 0}
+		if sfxOK && g.r.Chance(1, 2) {
+			if g.r.Chance(1, 2) {
+				l[i][1], dup[1] = 0, 1
+			} else {
+				l[i][1], dup[1] = 1, 0
+			}
+		} else {
+			l[i][1] = 0
+		}
+		at := g.r.Intn(len(l) + 1)
+		l = append(l, [2]int64{})
+		copy(l[at+1:], l[at:])
+		l[at] = dup
 	}
 	return l
 }
@@ -807,6 +833,19 @@ func c09Cover(out *verifh.Out, cfg c09Cfg, ops []c09Op, line []int64) {
 			out.Cover(fmt.Sprintf("op%d.ttl.%s", o.code, cls(o.ttl)))
 			if len(o.addrs) > 1 {
 				out.Cover(fmt.Sprintf("op%d.batch_several", o.code))
+			}
+			seen := map[int64]int64{}
+			for _, a := range o.addrs {
+				if a[1] != 2 {
+					if prev, ok := seen[a[0]]; ok {
+						if prev == a[1] {
+							out.Cover(fmt.Sprintf("op%d.dup_in_batch.same_form", o.code))
+						} else {
+							out.Cover(fmt.Sprintf("op%d.dup_in_batch.plain_and_p2p_self", o.code))
+						}
+					}
+					seen[a[0]] = a[1]
+				}
 			}
 			for _, a := range o.addrs {
 				if a[1] == 1 {
